@@ -1,6 +1,6 @@
 SPECIFICATION Spec
 CONSTANTS
-  ModelSet = {"gemm_relu", "matmul_add", "conv_flatten", "reshapes", "gru", "lstm", "rnn"}
+  ModelSet = {"gemm_relu", "matmul_add", "conv_flatten", "reshapes", "gru", "lstm", "rnn", "lstm_peephole", "gru_lbr"}
   MaxBatch = 3
 INVARIANT BatchIndependent
 CHECK_DEADLOCK FALSE
